@@ -475,9 +475,9 @@ def _run(R, tier, hs, S):
 
     # ---- vacuity guards ------------------------------------------------------
     main_td = per_file.get("_fake_typedefs.h", 0)
-    if (len(hs) < 100 or main_td < 150 or n_total < len(hs) * len(STDS) * len(FORMS)
+    if not R.viol and (len(hs) < 100 or main_td < 150 or n_total < len(hs) * len(STDS) * len(FORMS)
             or nontriv < len(hs) * 4 or len(hashes) < 3 or (sweeps_ok and min(used_names) < 150)
-            or len(pairs_covered) < (len(hs) - 1) * len(FORMS) or (sweeps_ok == len(sweep_tasks) and dialect_diffs < 12)):
+            or len(pairs_covered) < (len(hs) - 1) * len(FORMS) or (sweeps_ok == len(sweep_tasks) and dialect_diffs < 12)):  # (only when nothing else failed: failures shrink the counts)
         R.fail("vacuous", {"headers": len(hs), "typedef_names": main_td, "runs": n_total,
                            "nontrivial": nontriv, "distinct_asts": len(hashes), "used_names": used_names},
                "too few headers / typedef names / runs, or the ASTs are empty")
